@@ -447,6 +447,7 @@ class World:
             else:
                 f = io.BytesIO(content)
             f.seek(offset)
+            self.trace.append(("appret",))          # the application call returned its iterable
             return environ["wsgi.file_wrapper"](f, blk)
 
         class It:
@@ -463,6 +464,7 @@ class World:
                     if r is not None:
                         return r
                 raise StopIteration
+        self.trace.append(("appret",))              # the application call returned its iterable
         return It()
 
     # ---- patching (global, shared by all worlds: see install_patches)
@@ -671,6 +673,8 @@ def enc_trace(trace):
             out += [25, e[2]]
         elif k == "keep":
             out += [26]
+        elif k in ("appret", "stuck"):
+            continue                       # markers for the oracles only (not events of Model/Handle.v)
         else:
             raise RuntimeError("unknown trace event %r" % (e,))
     return out
